@@ -26,11 +26,15 @@ pub struct EncOpts {
     pub parents_order: Option<Vec<usize>>,
     /// leave out parent records of terms without parents
     pub omit_empty_parent_records: bool,
+    /// write every gene / disease record that lists at least one term twice: first with all but its last
+    /// term, then completely (the layout does not forbid a record id to occur twice; whichever way a decoder
+    /// resolves it - first wins, last wins, merge - links and record must stay consistent with each other)
+    pub repeat_records: bool,
 }
 
 impl EncOpts {
     pub fn v(version: u8) -> EncOpts {
-        EncOpts { version, parents_order: None, omit_empty_parent_records: false }
+        EncOpts { version, parents_order: None, omit_empty_parent_records: false, repeat_records: false }
     }
 }
 
@@ -144,6 +148,13 @@ impl Sections {
         let mut recs: [Vec<Vec<u8>>; 3] = Default::default();
         for k in KINDS {
             for (id, name, terms) in records_of(f, k) {
+                if o.repeat_records && !terms.is_empty() {
+                    let part = &terms[..terms.len() - 1];
+                    recs[k.idx()].push(match k {
+                        Kind::Gene => gene_record(id, &name, part),
+                        _ => disease_record(id, &name, part),
+                    });
+                }
                 recs[k.idx()].push(match k {
                     Kind::Gene => gene_record(id, &name, &terms),
                     _ => disease_record(id, &name, &terms),
